@@ -68,6 +68,26 @@ CHECKS = {
              "facing is decided by TLC from exact lattice determinants.",
         design="DESIGN.md §5 C07",
         note=TRUST + "; footprints and clip piece counts of single triangles come from the implementation"),
+    "C04": dict(
+        technique="TLA+ relation Raster (exact integer edge functions on pixel-centre lattices, 0.001 px band); TLC checks "
+                  "order-freedom, shared-edge and partition theorems of the relation; trace validation of every recorded "
+                  "tri_fill call on exhaustive and random lattices",
+        text="TLC checks on the relation itself that coverage is independent of vertex order, that triangles sharing an "
+             "edge never both claim a pixel and that a cut triangle leaves no gap; the real tri_fill is run on every "
+             "ordered vertex triple of the half-pixel lattice (incl. off-grid shifts) and on random finer lattices, and "
+             "every recorded scanline list is judged by TLC (must-cover, must-not-cover, row order, span length).",
+        design="DESIGN.md §5 C04",
+        note=TRUST + "; band widened to the L1 bound"),
+    "C05": dict(
+        technique="TLA+ relation Raster (exact rational interpolation plane via edge functions, perspective division); TLC "
+                  "checks interpolation laws of the spec; trace validation of every recorded fragment (integer-scaled) "
+                  "against the exact plane with the statement's tolerance",
+        text="TLC checks that the spec's plane reproduces vertex values and stays within their range; every fragment the "
+             "real tri_fill produces on the exhaustive half-pixel lattice and on random small lattices (five attribute "
+             "types, w ratios up to 10:1) is judged by TLC: position at the pixel centre, depth and every attribute "
+             "component within 0.5 % of range of the exact rational value, all finite.",
+        design="DESIGN.md §5 C05",
+        note=TRUST + "; observations scaled to integers by the harness (rounding widened in the tolerance)"),
 }
 
 NOT_YET = "check not built yet in this round (see DESIGN.md §9 for the order of work)"
